@@ -19,8 +19,8 @@ def search(ctx, res, problems):
 
 
 PROP = {
-    "streams": streams, "search": search,
+    "streams": streams, "search": search, "translators": nc.translators_ntt,
     "rule": "poly<T,n,m>: forward transform (spec: canonical range; n ≤ 256 also the direct evaluation at φ^(2·bitrev(r)+1)), inverse transform, inv∘fwd and fwd∘inv (spec: identity), fwd(a+b) vs fwd(a)+fwd(b); inputs: zero, every unit vector (n ≤ 16), ±X^i, all-(p-1), boundary mixes, sparse, random; degrees/limbs/moduli/backends as C01; transform tables compared entry by entry (phis against independently computed φ^i); distinct = distinct op lines",
-    "trusted_base": props.COMMON_TB,
+    "trusted_base": props.COMMON_TB + [nc.NTT_AST_TB],
     "assumptions": ["inputs canonical", "degree a power of two ≤ kMaxPolyDegree of the limb"],
 }
